@@ -143,30 +143,46 @@ class Scheduler:
         return self.results
 
 
+_REAL_LOCK = type(threading.Lock())
+_REAL_RLOCK = type(threading.RLock())
+
+
 class SchedLock:
-    """scheduler-aware replacement for threading.Lock"""
-    def __init__(self, sched, log=None):
+    """scheduler-aware replacement for threading.Lock (or, with reentrant=True, threading.RLock)"""
+    def __init__(self, sched, log=None, reentrant=False):
         self.sched = sched
         self.owner = None
+        self.depth = 0
+        self.reentrant = reentrant
         self.log = log
 
     def acquire(self, *a, **k):
         s = self.sched
         tid = s.me()
+        if self.reentrant and self.owner is not None and self.owner == tid:
+            self.depth += 1
+            return True
         s.yield_point('lock.acquire')
         while self.owner is not None:
+            if tid is None:           # not a scheduled thread (set-up / tear-down code): nobody to wait for
+                break
             s.block(tid)
-        self.owner = tid
+        self.owner = tid if tid is not None else -1
+        self.depth = 1
         if self.log is not None:
             self.log.append((tid, 'acquire'))
         return True
 
     def release(self):
         s = self.sched
+        if self.reentrant and self.depth > 1:
+            self.depth -= 1
+            return
         s.yield_point('lock.release')
         if self.log is not None:
             self.log.append((s.me(), 'release'))
         self.owner = None
+        self.depth = 0
         s.unblock_all()
 
     def __enter__(self):
@@ -237,3 +253,45 @@ class SharedValues:
 
     def __len__(self):
         return dict.__len__(self.d)
+
+
+def instrument_locks(sched, roots, log=None, depth=4):
+    """replace every real threading.Lock / RLock reachable from the given objects' attributes (a refactored storage or
+    cache may create its own) by a scheduler-aware lock, so that a preempted holder cannot block the whole process"""
+    seen = set()
+
+    def walk(obj, d):
+        if d < 0 or id(obj) in seen:
+            return
+        seen.add(id(obj))
+        try:
+            attrs = vars(obj)
+        except TypeError:
+            return
+        for k, v in list(attrs.items()):
+            if isinstance(v, _REAL_LOCK):
+                try:
+                    setattr(obj, k, SchedLock(sched, log))
+                except Exception:
+                    pass
+            elif isinstance(v, _REAL_RLOCK):
+                try:
+                    setattr(obj, k, SchedLock(sched, log, reentrant=True))
+                except Exception:
+                    pass
+            elif isinstance(v, SchedLock):
+                continue
+            elif hasattr(v, '__dict__') and not isinstance(v, type) and type(v).__module__.split('.')[0] in ('vakt', 'functools'):
+                walk(v, d - 1)
+            elif callable(v) and hasattr(v, '__self__'):
+                walk(v.__self__, d - 1)
+            elif callable(v) and getattr(v, '__closure__', None):
+                for cell in v.__closure__:
+                    try:
+                        c = cell.cell_contents
+                    except ValueError:
+                        continue
+                    if hasattr(c, '__dict__') and type(c).__module__.split('.')[0] == 'vakt':
+                        walk(c, d - 1)
+    for r in roots:
+        walk(r, depth)
